@@ -37,7 +37,8 @@ PROBES = ["read_after_registration", "read_after_restart", "user_codec_wrote", "
 
 VALS = [["str", ""], ["str", "ascii"], ["str", "é∑漢"], ["str", "line1\r\nline2\rline3\n"], ["str", "\ufeffbom\x00nul\x1a"], ["bigstr", "aé", 1 << 20], ["bytes", ""], ["bytes", "00ff10"],
         ["bytearray", "0102"], ["none"], ["obj", 1], ["obj", 2, "é"], ["list", [["int", 1], ["str", "a"]]],
-        ["dict", [["a", ["int", 1]]]], ["tuple", [["int", 1], ["none"]]], ["frame", 3], ["frame", 0], ["int", 5],
+        ["dict", [["a", ["int", 1]]]], ["tuple", [["int", 1], ["none"]]], ["frame", 3], ["frame", 0], ["frame", 4, "labels"], ["frame", 4, "named"], ["frame", 5, "filtered"],
+        ["frame", 4, "multi"], ["frame", 3, "offset"], ["int", 5],
         ["obj2inner", 4], ["obj2pkg", 4], ["obj2inner", 5]]
 REGS = ["tagstr", "objjson", "objpickle2", "bytes2", "builtin_string", "builtin_pickle", "pkgobj2", "pkgobj2"]
 
@@ -70,7 +71,21 @@ def _mk(spec):
     if spec[0] == "frame":
         import pandas as pd
 
-        return pd.DataFrame({"x": list(range(spec[1])), "y": [f"é{i}" for i in range(spec[1])]})
+        n = spec[1]
+        df = pd.DataFrame({"x": list(range(n)), "y": [f"é{i}" for i in range(n)], "z": [i / 2 for i in range(n)],
+                           "b": [i % 2 == 0 for i in range(n)]})
+        how = spec[2] if len(spec) > 2 else "plain"
+        if how == "labels":
+            df.index = [f"row{i}" for i in range(n)]
+        elif how == "named":
+            df = df.set_index("y")
+        elif how == "filtered":
+            df = df[df.x % 2 == 1]
+        elif how == "multi":
+            df = df.set_index(["b", "y"])
+        elif how == "offset":
+            df.index = list(range(10, 10 + n))
+        return df
     return mk_value(spec)
 
 
@@ -79,7 +94,9 @@ def _canon(v):
         import pandas as pd
 
         if isinstance(v, pd.DataFrame):
-            return "frame:" + v.to_json()
+            # columns, index names, index labels, values and column types: what DataFrame.equals compares
+            return "frame:" + repr((list(v.columns), list(v.index.names), v.index.tolist(), v.to_dict(orient="list"),
+                                    [str(t) for t in v.dtypes]))
     except ImportError:
         pass
     return canon(v)
